@@ -28,30 +28,35 @@ type c17Res struct {
 }
 
 type c17IO struct {
-	name    string
-	ty      string // WGSL type
-	loc     int    // >= 0: @location(loc); -1: builtin
-	builtin string
-	interp  string // "", "flat", "linear", "perspective"
-	sampl   string // "", "center", "centroid", "sample"
-	invar   bool
+	name        string
+	ty          string // WGSL type
+	loc         int    // >= 0: @location(loc); -1: builtin
+	builtin     string
+	interp      string // "", "flat", "linear", "perspective"
+	sampl       string // "", "center", "centroid", "sample"
+	invar       bool
+	interpFirst bool // print @interpolate before @location (attribute order is free in WGSL)
 }
 
 type c17Entry struct {
-	name      string
-	stage     string // vertex | fragment | compute
-	wg        [3]int
-	in, out   []c17IO
-	inStruct  bool
-	outStruct bool
-	uses      []int // indices into resources (directly or through the helper)
-	viaHelper bool
+	name                string
+	stage               string // vertex | fragment | compute
+	wg                  [3]int
+	in, out             []c17IO
+	inStruct            bool
+	outStruct           bool
+	uses                []int // indices into resources (directly or through the helper)
+	viaHelper           bool
+	callsLeaf, callsMid bool
 }
 
 type c17Module struct {
 	res     []c17Res
 	entries []c17Entry
 	src     string
+	// shared helpers: leaf() reads resource leafRes, mid() calls leaf() and reads resource midRes (-1: absent). Entry
+	// points may call either, so that a resource is reached through different call paths from different entry points.
+	leafRes, midRes int
 }
 
 var c17Types = []string{"f32", "vec2<f32>", "vec3<f32>", "vec4<f32>", "u32", "vec2<u32>", "i32", "vec4<i32>"}
@@ -73,6 +78,17 @@ func c17Gen(r *run.Rng) *c17Module {
 		used[[2]int{g, b}] = true
 		m.res = append(m.res, c17Res{fmt.Sprintf("res%d", i), []string{"uniform", "storage-rw", "storage-ro"}[r.Intn(3)], g, b})
 	}
+	m.leafRes, m.midRes = -1, -1
+	var readable []int
+	for i, rs := range m.res {
+		if rs.kind != "storage-rw" {
+			readable = append(readable, i)
+		}
+	}
+	if len(readable) >= 2 && r.Chance(1, 2) {
+		p := r.Perm(len(readable))
+		m.leafRes, m.midRes = readable[p[0]], readable[p[1]]
+	}
 	nE := r.Range(1, 4)
 	locs := func(n int) []int {
 		p := r.Perm(16)
@@ -90,6 +106,26 @@ func c17Gen(r *run.Rng) *c17Module {
 			}
 		}
 		en.viaHelper = len(en.uses) > 0 && r.Chance(1, 3)
+		if m.leafRes >= 0 {
+			en.callsLeaf, en.callsMid = r.Chance(1, 2), r.Chance(1, 2)
+			if e == 0 {
+				en.callsLeaf, en.callsMid = true, true // the first entry point walks leaf() before mid()
+			}
+			add := func(ri int) {
+				for _, u := range en.uses {
+					if u == ri {
+						return
+					}
+				}
+				en.uses = append(en.uses, ri)
+			}
+			if en.callsLeaf || en.callsMid {
+				add(m.leafRes)
+			}
+			if en.callsMid {
+				add(m.midRes)
+			}
+		}
 		switch en.stage {
 		case "compute":
 			en.wg = [3]int{r.Range(1, 8), r.Range(1, 4), r.Range(1, 3)}
@@ -153,6 +189,7 @@ func c17Gen(r *run.Rng) *c17Module {
 }
 
 func c17RandInterp(r *run.Rng, io c17IO) c17IO {
+	io.interpFirst = r.Chance(1, 3)
 	if c17IsInt(io.ty) {
 		io.interp = "flat"
 		return io
@@ -178,11 +215,14 @@ func (io c17IO) attrs() string {
 	}
 	s := fmt.Sprintf("@location(%d)", io.loc)
 	if io.interp != "" {
+		ip := fmt.Sprintf("@interpolate(%s)", io.interp)
 		if io.sampl != "" {
-			s += fmt.Sprintf(" @interpolate(%s, %s)", io.interp, io.sampl)
-		} else {
-			s += fmt.Sprintf(" @interpolate(%s)", io.interp)
+			ip = fmt.Sprintf("@interpolate(%s, %s)", io.interp, io.sampl)
 		}
+		if io.interpFirst {
+			return ip + " " + s
+		}
+		s += " " + ip
 	}
 	return s
 }
@@ -236,11 +276,24 @@ func c17Print(m *c17Module) string {
 		}
 		return r.name + "[1]"
 	}
+	if m.leafRes >= 0 {
+		fmt.Fprintf(&b, "fn leaf() -> f32 { return %s; }\n", read(m.res[m.leafRes]))
+		fmt.Fprintf(&b, "fn mid() -> f32 { return leaf() * 2.0 + %s; }\n", read(m.res[m.midRes]))
+	}
 	for ei, e := range m.entries {
 		// helper through which the resources are reached
 		acc := "0.5"
+		if e.callsLeaf {
+			acc += " + leaf()"
+		}
+		if e.callsMid {
+			acc += " + mid()"
+		}
 		var writes []string
 		for _, ri := range e.uses {
+			if (e.callsLeaf || e.callsMid) && ri == m.leafRes || e.callsMid && ri == m.midRes {
+				continue // reached only through the shared helpers
+			}
 			acc += " + " + read(m.res[ri])
 			if m.res[ri].kind == "storage-rw" {
 				writes = append(writes, fmt.Sprintf("%s[2] = acc;", m.res[ri].name))
